@@ -12,6 +12,7 @@ type IdealCoefficientSatisfactionLevels struct {
 	MaxValue             float64 `json:"maxValue"`
 	MinValue             float64 `json:"minValue"`
 	currentValue         float64
+	exhausted            bool
 	criteria             model.Criteria
 	criteriaValuesRanges []utils.ValueRange
 	manager              CoefficientManager
@@ -33,10 +34,11 @@ func (s *IdealCoefficientSatisfactionLevels) Initialize(dmp *model.DecisionMakin
 		s.criteriaValuesRanges[i] = *model.CriteriaValuesRange(&alternatives, &c)
 	}
 	s.currentValue = s.manager.InitialValue(s)
+	s.exhausted = false
 }
 
 func (s *IdealCoefficientSatisfactionLevels) HasNext() bool {
-	return s.manager.HasNext(s)
+	return !s.exhausted && s.manager.HasNext(s)
 }
 
 func (s *IdealCoefficientSatisfactionLevels) Next() model.Weights {
@@ -50,7 +52,13 @@ func (s *IdealCoefficientSatisfactionLevels) Next() model.Weights {
 			weights[c.Id] = valRange.Max - delta
 		}
 	}
-	s.currentValue = s.manager.UpdateValue(s.currentValue, s.Coefficient)
+	nextValue := s.manager.UpdateValue(s.currentValue, s.Coefficient)
+	if nextValue == s.currentValue {
+		// the coefficient is below the floating point resolution of the current level: the series
+		// cannot advance any more, so it ends here instead of repeating the same level forever
+		s.exhausted = true
+	}
+	s.currentValue = nextValue
 	return weights
 }
 
